@@ -15,7 +15,7 @@ CHECK = MixedCheck(
     prop='C05', profile=profile,
     monitors=lambda: [Registry(), LifecycleMonitor(('C05',))],
     tiers={'quick': 500, 'thorough': 15_000},
-    ops_profile={'p_dup': 0.2, 'spot_plain_sells': False}, ops_tiers={'quick': 3000, 'thorough': 100_000},
+    ops_profile={'p_dup': 0.2, 'spot_plain_sells': False, 'weights': {'boundary': 0.05}}, ops_tiers={'quick': 3000, 'thorough': 100_000},
     nontrivial=lambda r: r['counters'].get('c05_execute_on_final', 0) + r['counters'].get('c05_cancel_on_final', 0) > 0,
     ops_nontrivial=lambda r: r['counters'].get('c05_execute_on_final', 0) + r['counters'].get('c05_cancel_on_final', 0) > 0,
     rule=('operation runs (real store/exchange/positions/orders/broker/trade log, scheduler instead of the matching engine: '
